@@ -36,6 +36,47 @@ func roles(fd *ast.FuncDecl) renamer {
 	return r
 }
 
+// withLocals adds every identifier declared in fd's body (`:=`, `var`, range variables) to r as
+// L0, L1, … in source order, unless r already names it: renaming a local changes no fact.
+func withLocals(r renamer, fd *ast.FuncDecl) renamer {
+	n := 0
+	add := func(e ast.Expr) {
+		if id, ok := e.(*ast.Ident); ok && id.Name != "_" {
+			if _, known := r[id.Name]; !known {
+				r[id.Name] = fmt.Sprintf("L%d", n)
+				n++
+			}
+		}
+	}
+	ast.Inspect(fd.Body, func(nd ast.Node) bool {
+		switch x := nd.(type) {
+		case *ast.AssignStmt:
+			if x.Tok == token.DEFINE {
+				for _, l := range x.Lhs {
+					add(l)
+				}
+			}
+		case *ast.ValueSpec:
+			for _, nm := range x.Names {
+				add(nm)
+			}
+		case *ast.RangeStmt:
+			if x.Tok == token.DEFINE {
+				add(x.Key)
+				add(x.Value)
+			}
+		case *ast.FuncLit:
+			for _, p := range x.Type.Params.List {
+				for _, nm := range p.Names {
+					add(nm)
+				}
+			}
+		}
+		return true
+	})
+	return r
+}
+
 func norm(c *ex.Ctx, r renamer, e ast.Expr) string {
 	var f func(e ast.Expr) string
 	f = func(e ast.Expr) string {
@@ -277,6 +318,19 @@ func genBody(c *ex.Ctx, sbp *strings.Builder) {
 		c.Fail("render not found")
 	} else {
 		r := roles(fd)
+		// range variables are K / E (both loops), the other locals L0, L1, …
+		ast.Inspect(fd, func(n ast.Node) bool {
+			if s, ok := n.(*ast.RangeStmt); ok {
+				if id, ok := s.Key.(*ast.Ident); ok && id.Name != "_" {
+					r[id.Name] = "K"
+				}
+				if id, ok := s.Value.(*ast.Ident); ok {
+					r[id.Name] = "E"
+				}
+			}
+			return true
+		})
+		r = withLocals(r, fd)
 		var facts []string
 		ast.Inspect(fd, func(n ast.Node) bool {
 			switch s := n.(type) {
@@ -347,7 +401,7 @@ func genBody(c *ex.Ctx, sbp *strings.Builder) {
 	if fd := ex.FindFunc(cen, "Center", "Draw"); fd == nil {
 		c.Fail("Center.Draw not found")
 	} else {
-		r := roles(fd)
+		r := withLocals(roles(fd), fd)
 		var facts []string
 		ast.Inspect(fd, func(n ast.Node) bool {
 			switch s := n.(type) {
@@ -388,7 +442,7 @@ func genBody(c *ex.Ctx, sbp *strings.Builder) {
 	if fd := ex.FindFunc(tf, "TextField", "Draw"); fd == nil {
 		c.Fail("TextField.Draw not found")
 	} else {
-		r := roles(fd)
+		r := withLocals(roles(fd), fd)
 		var facts []string
 		ast.Inspect(fd, func(n ast.Node) bool {
 			switch s := n.(type) {
